@@ -134,6 +134,8 @@ impl MoveGen {
         for x in 0..self.moves.len() {
             self.moves[x].bitboard &= !mask;
         }
+        // an entry may have lost its last move: restore the iterator's invariant
+        self.set_iterator_mask(self.iterator_mask);
     }
 
     /// Never, ever, iterate this move
@@ -146,6 +148,8 @@ impl MoveGen {
                 found = true;
             }
         }
+        // an entry may have lost its last move: restore the iterator's invariant
+        self.set_iterator_mask(self.iterator_mask);
         found
     }
 
